@@ -304,6 +304,89 @@ def r03_5(ctx, prog, crate):
         ctx.check(ok, "R03.5", ["iter_count", "sample_size-times-len"], "iter_count is not sample_size * time_samples.len()", ic.where(0))
 
 
+def _root_local(b, op):
+    """Follow `&x` / copy / move chains of single-definition temporaries to the local they designate."""
+    if op["k"] not in ("copy", "move"):
+        return None
+    l = op["p"]["l"]
+    for _ in range(10):
+        defs = b.prov.defs.get(l, [])
+        if len(defs) != 1 or defs[0][0] != "S" or defs[0][3]["p"]["proj"]:
+            return l
+        rv = defs[0][3]["rv"]
+        src = rv["p"] if rv["k"] in ("ref", "rawptr") else (rv["o"]["p"] if rv["k"] == "use" and rv["o"]["k"] in ("copy", "move") else None)
+        if src is None or any(p["k"] != "deref" for p in src["proj"]):
+            return l
+        l = src["l"]
+    return l
+
+
+def r03_6(ctx, S, prog, crate):
+    """Every run whose statistics are reported starts from an empty sample store: the BenchContext handed to the Bencher
+    is built by the one constructor in the same loop iteration (or straight-line code) as the run and the compute_stats
+    call that reports it; the constructor initialises `samples` with Default::default() and `did_run` with false."""
+    cs_name = None
+    for c in prog.callers_of("BenchContext::compute_stats", crates=[crate]):
+        if "::tests::" in c.body.path or "::test::" in c.body.path:
+            continue
+        cs_name = c.callee
+        b = c.body
+        ctx.saw(b)
+        l = _root_local(b, c.args[0])
+        defs = b.prov.defs.get(l, []) if l is not None else []
+        news = [b.call_at(d[1]) for d in defs if d[0] == "C"]
+        ok = len(defs) == 1 and len(news) == 1
+        key = [b.path, "context-of-compute_stats"]
+        if not ctx.check(ok and news[0].callee.endswith("BenchContext::new"), "R03.6", key + ["built-by-the-constructor"],
+                         "the context whose statistics are reported is not a local built by a single BenchContext::new call", c.line()):
+            continue
+        n = news[0]
+        # the Bencher that runs the benchmark wraps this very context
+        bn = [x for x in b.live_calls() if x.callee.endswith("Bencher::new")]
+        okb = len(bn) == 1 and _root_local(b, bn[0].args[0]) == l
+        if not ctx.check(okb, "R03.6", key + ["is-the-context-that-ran"], "Bencher::new does not wrap the context whose statistics are reported", c.line()):
+            continue
+        # same iteration: constructor, run and report share their innermost loop, in that order
+        li = [b.innermost_loop(x.bb) for x in (n, bn[0], c)]
+        heads = [x["header"] if x else None for x in li]
+        same = heads[0] == heads[1] == heads[2]
+        order = b.dominates(n.bb, bn[0].bb) and b.dominates(bn[0].bb, c.bb)
+        ctx.check(same and order, "R03.6", key + ["fresh-per-run"],
+                  "BenchContext::new (loop %s), the run (loop %s) and compute_stats (loop %s) are not in the same iteration: samples of an earlier run "
+                  "would be reported again" % tuple(heads), n.line(), detail={"loops": heads})
+        # nothing else writes the context's fields in this body
+        wr = [(bi, si) for bi, si, s in b.stmts() if s["k"] == "assign" and s["p"]["l"] == l and s["p"]["proj"]]
+        ctx.check(not wr, "R03.6", key + ["not-patched-after-construction"], "fields of the context are overwritten in %s" % b.path, b.where(wr[0][0]) if wr else None)
+    if not ctx.anchor("R03.6", "non-test callers of BenchContext::compute_stats", 1 if cs_name else 0, 1):
+        return
+    # the constructor
+    nb = prog.body("benchmark::BenchContext::new", crate)
+    if ctx.anchor("R03.6", "BenchContext::new", 1 if nb else 0, 1):
+        ctx.saw(nb)
+        aggs = [(bi, s) for bi, si, s in nb.stmts() if s["k"] == "assign" and s["rv"]["k"] == "agg" and s["rv"]["ak"] == "adt" and norm(s["rv"]["adt"]) == "benchmark::BenchContext"]
+        if ctx.check(len(aggs) == 1, "R03.6", ["BenchContext::new", "one-aggregate"], "BenchContext aggregates in new(): %d" % len(aggs), nb.where(0)):
+            bi, s = aggs[0]
+            rv = s["rv"]
+            o = rv["ops"][rv["fields"].index("samples")]
+            d = direct_place(nb, o)
+            ctx.check(d is not None and d[0] == "call" and d[1].callee.endswith("Default>::default") or (d is not None and d[0] == "call" and d[1].callee.endswith("Default::default")),
+                      "R03.6", ["BenchContext::new", "samples-empty"], "new() does not start with SampleCollection::default()", nb.where(bi))
+            o = rv["ops"][rv["fields"].index("did_run")]
+            ctx.check(const_int(o) == 0, "R03.6", ["BenchContext::new", "did_run-false"], "new() does not start with did_run = false", nb.where(bi))
+    # who may construct: no BenchContext aggregate outside the constructor (tests excepted)
+    others = []
+    for x in prog.lib_bodies(crate):
+        if x.path == "benchmark::BenchContext::new" or "::tests::" in x.path or "::test::" in x.path:
+            continue
+        for bi, si, s in x.stmts():
+            if s["k"] == "assign" and s["rv"]["k"] == "agg" and s["rv"]["ak"] == "adt" and norm(s["rv"]["adt"]) == "benchmark::BenchContext":
+                others.append(x.path)
+    ctx.check(not others, "R03.6", ["BenchContext", "single-constructor"], "BenchContext is also built in %s" % sorted(set(others)), None)
+    # SampleCollection::default is the derived (all-empty) one
+    imp = [i for i in prog.impls(crate) if i.get("trait", "").endswith("Default") and "SampleCollection" in i.get("self", "")]
+    ctx.check(len(imp) == 1 and imp[0].get("derived"), "R03.6", ["SampleCollection", "derived-Default"], "SampleCollection's Default is not the derived one: %s" % imp, None)
+
+
 def run(ctx, prog, crate):
     S = Sampling(prog, crate)
     if not ctx.anchor("R03.1", "sampling loop", 1 if S.body is not None and S.loop is not None and S.cond_switch is not None else 0, 1):
@@ -314,3 +397,4 @@ def run(ctx, prog, crate):
     r03_3(ctx, S, prog, crate)
     r03_4(ctx, S, prog, crate)
     r03_5(ctx, prog, crate)
+    r03_6(ctx, S, prog, crate)
